@@ -150,7 +150,7 @@ impl World {
         });
         let creator = api.addr_make("creator").into_string();
         let c1 = app.store_code(Box::new(Puppet { tag: 1 }));
-        let c2 = app.store_code(Box::new(Puppet { tag: 2 }));
+        let c2 = app.store_code(wrapped_puppet());
         assert_eq!((c1, c2), (1, 2));
         let mut info = WorldInfo::default();
         info.codes.insert(1, creator.clone());
